@@ -61,6 +61,10 @@ class Ref(object):
             return np.full((L, R, R), 2.0)
         if kind == 'vec':
             return np.array([[[(l + 2) / 2.0] * R] * R for l in range(L)])
+        if kind == 'row':
+            return np.array([[[(j + 3) / 3.0 for j in range(R)] for i in range(R)] for l in range(L)])
+        if kind == 'mat':
+            return np.array([[[(2 * (i + 1) + (j + 1)) / 2.0 for j in range(R)] for i in range(R)] for l in range(L)])
         return np.array([[[(i + 1) + 2 * (j + 1) + (l + 1) for j in range(R)] for i in range(R)] for l in range(L)], dtype=float)
 
     @staticmethod
@@ -176,6 +180,10 @@ class MAAdapter(Adapter):
             return 2.0
         if kind == 'vec':
             return np.array([(l + 2) / 2.0 for l in range(L)]).reshape((L, 1, 1))
+        if kind == 'row':
+            return np.array([(j + 3) / 3.0 for j in range(R)])                      # shape (R,)
+        if kind == 'mat':
+            return np.array([[(2 * (i + 1) + (j + 1)) / 2.0 for j in range(R)] for i in range(R)])     # shape (R, R)
         return np.array([[[(i + 1) + 2 * (j + 1) + (l + 1) for j in range(R)] for i in range(R)] for l in range(L)], dtype=float)
 
     def step(self, w, l):
@@ -374,8 +382,13 @@ def run(ctx):
     ctx.add_tlc('values L=1 R=2 depth 2', res, exhaustive=True)
     edges = res.records['EDGE']
     ctx.sample({'edge': edges[len(edges) // 2]})
-    par = [(1, 1), (3, 5), (5, 64)] if not thorough else [(1, 1), (2, 3), (3, 5), (4, 16), (5, 64)]
+    par = [(1, 1), (2, 2), (3, 3), (3, 5), (5, 64)] if not thorough else [(1, 1), (2, 2), (2, 3), (3, 3), (3, 5), (4, 4), (4, 16), (5, 5), (5, 64)]
     replay_graph(ctx, res, 1, 2, 'replay.values', 2, parametric=par)
+    # operand kinds that broadcast over the matrix axes ((R,) and (R,R) arrays), one operation deep, incl. shapes with length == rank
+    res = run_tlc('MC_MatrixArray', cfg(1, 2, 1, 'RealOnly', 'KindNext'), ctx.tmp, seed=ctx.seed)
+    require_clean(res, 'MatrixArray operand kinds')
+    ctx.add_tlc('operand kinds row/mat L=1 R=2 depth 1', res, exhaustive=True)
+    replay_graph(ctx, res, 1, 2, 'replay.kinds', 1, parametric=[(2, 2), (3, 3), (4, 4), (2, 5), (5, 2)])
     # space machine: all 3x3 flag pairs x operators
     res = run_tlc('MC_MatrixArray', cfg(1, 2, 1, 'AllSpaces', 'SpaceNext'), ctx.tmp, seed=ctx.seed)
     require_clean(res, 'MatrixArray spaces')
